@@ -483,7 +483,9 @@ class _Neuron(Identity):
 class _Seq(Identity):
     def configs(self, tier):
         # shared_act / repeated: one module *instance* at two positions of the chain is applied twice, like any function
-        return [{"form": "positional"}, {"form": "ordered_dict"}, {"form": "shared_act"}, {"form": "repeated"}]
+        # reassigned_*: a layer replaced by attribute assignment after construction keeps its position in the chain (round k)
+        return [{"form": "positional"}, {"form": "ordered_dict"}, {"form": "shared_act"}, {"form": "repeated"},
+                {"form": "reassigned_act"}, {"form": "reassigned_first"}]
 
     def inputs(self, a):
         if a["form"] == "repeated":
@@ -513,6 +515,12 @@ class _Seq(Identity):
             seq = NN().Sequential(OrderedDict([("first", l1), ("act", act), ("last", l2)]))
         elif a["form"] == "shared_act":
             seq = NN().Sequential(l1, act, l2, act)
+        elif a["form"] == "reassigned_act":
+            seq = NN().Sequential(OrderedDict([("first", l1), ("act", NN().Sigmoid()), ("last", l2)]))
+            seq.act = act
+        elif a["form"] == "reassigned_first":
+            seq = NN().Sequential(OrderedDict([("first", self._mods(ts)[0]), ("act", act), ("last", l2)]))
+            seq.first = l1
         else:
             seq = NN().Sequential(l1, act, l2)
         return seq(ts[0])
